@@ -901,6 +901,11 @@ namespace sim
 			// retransmission timer, see schedule_resend()
 			asio::high_resolution_timer m_resend_timer;
 
+			// the expiry of one of our timers may already be queued for
+			// execution when this socket is destroyed. The functions waiting
+			// for them hold a weak reference to this token
+			std::shared_ptr<int> m_alive = std::make_shared<int>(0);
+
 			// our address family
 			bool m_is_v4 = true;
 
